@@ -175,6 +175,7 @@ func report(o options, w *World, results []*FuncResult, missing []string, start 
 	var samples []map[string]interface{}
 	var solverMs int64
 	bySolver := map[string]int{}
+	allNames := map[string]bool{}
 	byKind := map[string]int{}
 	inlined := map[string]bool{}
 	havoced := map[string]bool{}
@@ -201,6 +202,7 @@ func report(o options, w *World, results []*FuncResult, missing []string, start 
 		}
 		for _, ob := range r.Obls {
 			total++
+			allNames[ob.Name] = true
 			solverMs += ob.Millis
 			if ob.Millis > 3000 {
 				fmt.Fprintf(os.Stderr, "govc: slow obligation %s: %s %dms\n", ob.Name, ob.Solver, ob.Millis)
@@ -303,6 +305,22 @@ func report(o options, w *World, results []*FuncResult, missing []string, start 
 	if total == 0 {
 		fmt.Printf("ERROR property=%s no obligations generated\n", o.prop)
 		exit = 2
+	}
+	// hygiene: a recorded finding whose obligation is not generated any more
+	// (renamed or lost contract) would go silent; say so
+	if o.fn == "" {
+		for _, k := range kf.items {
+			if k.Property != o.prop || k.seen {
+				continue
+			}
+			if !allNames[k.Obligation] {
+				fmt.Fprintf(os.Stderr, "govc: WARNING: KNOWN_FINDINGS.txt lists obligation %s for %s, which is not generated on this tree (stale entry or lost contract)\n", k.Obligation, o.prop)
+				notes = append(notes, "stale known finding: "+k.Obligation)
+			} else {
+				fmt.Fprintf(os.Stderr, "govc: note: the recorded finding on %s does not reproduce on this tree (the obligation is discharged)\n", k.Obligation)
+				notes = append(notes, "recorded finding no longer reproduces: "+k.Obligation)
+			}
+		}
 	}
 	// lock file: the number of obligations must not shrink
 	if lockN := readLock(filepath.Join(o.verif, "obligations.lock"), o.prop); lockN > 0 && total < lockN && o.fn == "" {
